@@ -173,10 +173,18 @@ def run(chk):
                     if not (isinstance(sl, ast.Slice) and isinstance(sl.lower, ast.Name) and sl.lower.id == s and sl.upper is None):
                         rows_ok = False
             found.append(n)
+            # an expression that does not mention the two state series at all (the combination is formed elsewhere and only negated / renamed
+            # here) is not the located definition; rows selected through something other than a literal slice `[s:]` are not read
+            reads_state = bool({U, V} & {x.id for x in ast.walk(n.value) if isinstance(x, ast.Name)})
+            slices_read = all(isinstance(x.slice, ast.Slice) for x in [t] + list(ast.walk(n.value)) if isinstance(x, ast.Subscript) and
+                              isinstance(x.value, ast.Name) and x.value.id in (U, V, tn))
             chk.ob("R-ACC", c + "{third series}", "-(2*xi*w*v + w^2*u) with u=%s, v=%s" % (U, V), p == want,
-                   derived=p.canon(), loc=fi.loc(n), stmt=norm_stmt(n))
+                   derived=p.canon(), loc=fi.loc(n), stmt=norm_stmt(n),
+                   # (an operand turned into a column by a method call -- (w ** 2).reshape(-1, 1) -- is an opaque atom here: not read)
+                   inconclusive=(p != want and (not reads_state or any(".reshape(" in a_ for a_ in p.atoms()))))
             chk.ob("R-ACC", c + "{third series rows}", "computed and stored on rows %s:" % s, rows_ok,
-                   derived="rows consistent: %s" % rows_ok, loc=fi.loc(n), stmt=norm_stmt(n))
+                   derived="rows consistent: %s" % rows_ok, loc=fi.loc(n), stmt=norm_stmt(n),
+                   inconclusive=(not rows_ok and (not reads_state or not slices_read)))
     if not found:
         chk.ob("R-ACC", c + "{third series}", "an arithmetic definition of the third series", False, derived="none found",
                inconclusive=True, loc=fi.loc())
@@ -445,7 +453,8 @@ def nj_rules(chk):
     lp = Normaliser().poly(loads[0].value) if len(loads) == 1 else None
     chk.ob("R-NJ-REC", c2 + "{load}", "the load series is minus the record (once)", lp is not None and lp == -Poly.atom(rec),
            derived="load = %s" % (lp.canon() if lp is not None else "%d rebinding(s) of the record" % len(loads)),
-           loc=fr_.loc(loads[0]) if loads else fr_.loc())
+           loc=fr_.loc(loads[0]) if loads else fr_.loc(),
+           inconclusive=len(loads) != 1)        # the load held under another name / formed inline: not located
     loops = [n for n in fr_.node.body if isinstance(n, ast.For)]
     stores = []
     for lp_ in loops:
@@ -461,7 +470,9 @@ def nj_rules(chk):
     iv = lp_.target.id
     rng = [env0.poly(a).canon() for a in lp_.iter.args] if isinstance(lp_.iter, ast.Call) and ast.unparse(lp_.iter.func) == "range" else None
     want_rng = [Normaliser().poly(_expr("len(%s) - 1" % rec)).canon()]
-    chk.ob("R-NJ-REC", c2 + "{steps}", "the loop takes every step: range(len(record) - 1)", rng == want_rng, derived="range(%s)" % (rng,), loc=fr_.loc(lp_))
+    load_located = len(loads) == 1       # (the load under another name: the roles in the forms below are not known)
+    chk.ob("R-NJ-REC", c2 + "{steps}", "the loop takes every step: range(len(record) - 1)", rng == want_rng, derived="range(%s)" % (rng,), loc=fr_.loc(lp_),
+           inconclusive=(rng != want_rng and not load_located))
     for lp_, stn in stores:
         tgt = stn.targets[0]
         which = 0 if tgt.value.id == U else 1
@@ -478,7 +489,8 @@ def nj_rules(chk):
                derived="%s -> column %s" % (got.canon(), col), loc=fr_.loc(stn), stmt=norm_stmt(stn),
                # what is stored is a bare local the straight-line environment cannot read through (a state carried and re-bound in the loop): the
                # update expression itself is not located
-               inconclusive=(okcol and got.is_monomial() and len(got.atoms()) == 1 and bool(__import__("re").fullmatch(r"[A-Za-z_]\w*", list(got.atoms())[0]))))
+               inconclusive=(okcol and got.is_monomial() and len(got.atoms()) == 1 and bool(__import__("re").fullmatch(r"[A-Za-z_]\w*", list(got.atoms())[0]))) or
+               (not (got == want and okcol) and not load_located))
 
 
 def _t0_selector(fi, per):
